@@ -1,9 +1,9 @@
 #!/bin/bash
-# usage: tools/sweep.sh <tier> <seed...>   - run every registered check, print one line each
+# usage: [CHECKS="C01 C07"] tools/sweep.sh <tier> <seed...>   - run every registered check (or those named), print one line each
 cd "$(dirname "$0")/.."
 tier=$1; shift
 for seed in "$@"; do
-  for c in C01 C02 C03 C04 C05 C06 C07 C08 C09 C10 C11 C12 C13 C14 C15 C16 C17 C18 C19 C20; do
+  for c in ${CHECKS:-C01 C02 C03 C04 C05 C06 C07 C08 C09 C10 C11 C12 C13 C14 C15 C16 C17 C18 C19 C20}; do
     out=$(VERIF_SEED=$seed timeout 7200 /venv/bin/python -m vf.run $c --tier $tier 2>&1)
     rc=$?
     echo "$c seed=$seed rc=$rc $(echo "$out" | grep -E '^C[0-9]+ ' | tail -1 | cut -c1-120) $(echo "$out" | grep -cE '^VIOLATION') viol $(echo "$out" | grep -cE '^INCONCLUSIVE') inconcl"
